@@ -40,6 +40,18 @@ def main():
     combos = [(a, b) for a in range(1, 7) for b in range(1, 7) if (a, b) != (1, 1)]
     progs = [wide_prog(a, b) for a, b in combos]
     results = pipeline.compile_all([(p, [{"v": v} for v in range(5, 11)]) for p in progs])
+    # literal (constant) factors: the compiler may treat constants specially, so the same oracle is applied to programs whose
+    # factors are Int literals (no arguments, one context each)
+    lit_vals = [0, 1, 2, 2 ** 32, 2 ** 63, 2 ** 64 - 1]
+    lit_progs = []
+    for _ in range(250 if tier == "quick" else 3000):
+        a, b = rnd.choice(combos)
+        fs = [rnd.choice(lit_vals) for _ in range(a + b)]
+        if rnd.random() < 0.5:
+            fs[rnd.randrange(a)] = 0
+        import tealtok as _tt
+        lit_progs.append({"main": N("WideRatio", "u", a=[N("Int", n=_tt.digits(f)) for f in fs], i=[a]), "rt": [], "vars": [], "mode": "app"})
+    lit_results = pipeline.compile_all([(p, [{"v": v} for v in (5, 8, 10)]) for p in lit_progs])
     cap64 = 400 if tier == "quick" else 5000
     capx = 1200 if tier == "quick" else 70000
     e64, m64, ex, mx = [], [], [], []
@@ -68,7 +80,13 @@ def main():
             exhaustive_scaled.append("%dx%d" % (a, b))
         ex.append(e2)
         mx.append(meta2)
-    for name, ents, metas, base, wd in (("c16w", e64, m64, 256, 8), ("c16x", ex, mx, 16, 1)):
+    elit, mlit = [], []
+    for p, rs in zip(lit_progs, lit_results):
+        e, meta = pipeline.make_entry(len(elit) + 1, p, rs, batch.default_cx(p))
+        if e["texts"]:
+            elit.append(e)
+            mlit.append(meta)
+    for name, ents, metas, base, wd in (("c16w", e64, m64, 256, 8), ("c16x", ex, mx, 16, 1), ("c16lit", elit, mlit, 256, 8)):
         verdicts, tres, errors = pipeline.run_refine(ents, name, max_steps=600, base=base, wdigits=wd, chunks=4)
         for r in tres:
             chk.add_tlc(r)
